@@ -111,7 +111,7 @@ CHECKS = {
                   "z3 proves minimality / completeness of the returned set and the refusal rule per path",
         text="Per enumerated dataset and flag, on every path: returned rankings are (unified) inputs, minimal among the inputs for all "
              "schemes on the path, every missing distinct input is strictly worse, incomplete data accepted iff the scheme is a positive "
-             "multiple of the unifying scheme on both vectors; same-object histories included.",
+             "multiple of the unifying scheme on both vectors; same-object histories and datasets whose element names mimic the textual delimiters included.",
         design="4/C10"),
     "C12": dict(
         technique="fork-mode symbolic execution of BordaCount (both variants) with a symbolic scheme; exact-fraction oracle of the two "
@@ -153,7 +153,7 @@ CHECKS = {
              "indices are in range and both loops exit within the bound; round trip: for 240 templates rendered like str(Ranking) (both "
              "notations, name prefix, surrounding whitespace, <= 3 buckets x 2 elements of 1-3 symbolic characters) the parser returns "
              "exactly the template's buckets; the string model is compared with CPython on random strings on every run. File round trip: "
-             "write_rankings and get_rankings_from_file executed on a modelled file (buffer of code points) for files of 1-3 template "
+             "write_rankings and get_rankings_from_file executed on a modelled file (buffer of code points; modelled directory tree, six ways of naming the fresh file) for files of 1-3 template "
              "rankings incl. the empty ranking: no exception and the reader hands to the (stubbed) parser exactly the lines written, in "
              "order, also when the int parser refuses a line. The OS file layer and Dataset.__eq__ (C17) are outside the claim.",
         design="4/C18"),
